@@ -1173,7 +1173,7 @@ def cv_expected(ctx, done):
         if r['skip_fusion']:
             continue
         btx = {'seq': r['backbone'], 'coding': dd['coding'], 'orf': orf, 'start_nf': dd['start_nf'],
-               'end_nf': r['acc_end_nf'], 'sec': [s for s in dd['sec'] if s + 3 < bp]}
+               'end_nf': r['acc_end_nf'], 'sec': [s for s in dd['sec'] if s + 3 <= bp]}
         from .cv_explore import tx_fields
         lines2.append('\t'.join(['S', 'cvb'] + tx_fields(btx) + [str(lim), '1', ''] + r['cleave']
                                 + [deny, r['canon']]))
@@ -1228,9 +1228,14 @@ def cv_judge(ctx, r):
                                          n_expected=len(r['S']), n_reported=len(real)))
     if missing:
         nv += 1
+        # known class: an annotated Sec codon of the donor that ENDS exactly at the breakpoint is read
+        # as a stop (the fusion then yields nothing behind it)
+        bp_ = r.get('bp', r.get('donor_breakpoint_tx'))
+        sec_end = bp_ is not None and any(s_ + 3 == bp_ for s_ in (r.get('donor') or {}).get('sec', []))
         ctx.add_violation(f'{CV_MISSING}: {len(missing)} peptide(s), e.g. {sorted(missing)[:3]}',
                           cv_replay_dict(r, sub='missing', missing=sorted(missing)[:20],
-                                         n_expected=len(r['S']), n_reported=len(real)))
+                                         n_expected=len(r['S']), n_reported=len(real)),
+                          finding_key='sec-codon-ends-at-fusion-breakpoint' if (sec_end and not extra) else None)
     return nv
 
 
